@@ -87,7 +87,15 @@ func spec(nonce int) []byte {
 			"delete": map[string]any{"parameters": []any{map[string]any{"name": "X-Confirm", "in": "header", "required": true, "schema": map[string]any{"type": "string", "enum": []any{"yes"}}}},
 				"responses": map[string]any{"204": map[string]any{"description": "gone"}}},
 		},
-		"/items": map[string]any{"get": map[string]any{"responses": map[string]any{"default": map[string]any{"description": "d"}}}},
+		"/items": map[string]any{"get": map[string]any{
+			// two deepObject parameters with different names, on two operations
+			"parameters": []any{map[string]any{"name": "filter", "in": "query", "required": true, "style": "deepObject", "explode": true,
+				"schema": map[string]any{"type": "object", "required": []any{"a"}, "properties": map[string]any{"a": map[string]any{"type": "integer"}}}}},
+			"responses": map[string]any{"default": map[string]any{"description": "d"}}}},
+		"/search": map[string]any{"get": map[string]any{
+			"parameters": []any{map[string]any{"name": "page", "in": "query", "required": true, "style": "deepObject", "explode": true,
+				"schema": map[string]any{"type": "object", "required": []any{"n"}, "properties": map[string]any{"n": map[string]any{"type": "integer", "maximum": 9}}}}},
+			"responses": map[string]any{"default": map[string]any{"description": "d"}}}},
 		// one schema behind a JSON and a multipart body; its additionalProperties schema has properties of its own
 		"/upload": map[string]any{"post": map[string]any{
 			"requestBody": map[string]any{"required": true, "content": map[string]any{
@@ -174,6 +182,14 @@ func (w *world) request(variant int) *http.Request {
 		q = "?lim=5"
 	} else if variant%3 == 2 {
 		q = "?lim=500"
+	}
+	switch variant % 13 {
+	case 11:
+		req, _ := http.NewRequest("GET", fmt.Sprintf("http://localhost/items?filter[a]=%d", variant), nil)
+		return req
+	case 12:
+		req, _ := http.NewRequest("GET", fmt.Sprintf("http://localhost/search?page[n]=%d", variant%20), nil)
+		return req
 	}
 	switch variant % 11 {
 	case 9:
